@@ -65,7 +65,7 @@ SPEC = {
                               "Gfa.C05.rename_frame", "Gfa.C05.rename_mentions", "Gfa.C05.rename_carrier", "Gfa.C05.renameIn_frame",
                               "Gfa.C05.cascade_sound", "Gfa.C05.cascade_complete", "Gfa.C05.rm_lines", "Gfa.C05.rmCore_lines", "Gfa.C05.rm_lines_origin",
                               "Gfa.C05.rm_kept_unchanged", "Gfa.C05Edit.setTag_frame", "Gfa.C05Edit.editTag_refs", "Gfa.C05Edit.editTag_name", "Gfa.C05Edit.rmText_is_cascade",
-                              "Gfa.C05Edit.nodup_reachable", "Gfa.C05Edit.closed_reachable", "Gfa.C14Frame.rm_frame", "Gfa.C14Frame.rmIdx_keeps", "Gfa.C14Frame.cascade_plain",
+                              "Gfa.C05Edit.nodup_reachable", "Gfa.C05Edit.closed_reachable", "Gfa.C14Frame.rm_frame", "Gfa.C14Frame.rmIdx_frame", "Gfa.C14Frame.rmIdx_keeps", "Gfa.C14Frame.cascade_plain",
                               "Gfa.C05.rm_set_rest", "Gfa.C05.rm_name_gone", "Gfa.C02.rmIdx_closed", "Gfa.C02.dropItems_itemRefs",
                               "Gfa.C09.rename_nodup", "Gfa.G.renameIn_name"]},
         "ASSUMPTIONS": ["the refinement 'state = parse of the denoted text' is decided by the oracle (independent text model + reparse) and the "
